@@ -79,7 +79,7 @@ type rawRec struct {
 }
 
 // fetch sends one sessionless Fetch v11 for the partition.
-func (r *rawConn) fetch(offset int64, maxBytes int32, isolation int8) (*kmsg.FetchResponseTopicPartition, error) {
+func (r *rawConn) fetch(offset int64, maxBytes, partBytes int32, isolation int8) (*kmsg.FetchResponseTopicPartition, error) {
 	req := kmsg.NewPtrFetchRequest()
 	req.Version = 11
 	req.ReplicaID = -1
@@ -92,7 +92,7 @@ func (r *rawConn) fetch(offset int64, maxBytes int32, isolation int8) (*kmsg.Fet
 	rp.FetchOffset = offset
 	rp.CurrentLeaderEpoch = -1
 	rp.LogStartOffset = -1
-	rp.PartitionMaxBytes = maxBytes
+	rp.PartitionMaxBytes = partBytes
 	rt.Partitions = append(rt.Partitions, rp)
 	req.Topics = append(req.Topics, rt)
 	kresp, err := r.do(req)
@@ -113,7 +113,7 @@ func (r *rawConn) fetch(offset int64, maxBytes int32, isolation int8) (*kmsg.Fet
 // readLog fetches the whole partition (read_uncommitted, one request: the
 // logs of this check are tiny) and returns its records and the high watermark.
 func (r *rawConn) readLog() ([]rawRec, int64, error) {
-	p, err := r.fetch(0, 64<<20, 0)
+	p, err := r.fetch(0, 64<<20, 64<<20, 0)
 	if err != nil {
 		return nil, 0, err
 	}
@@ -123,10 +123,10 @@ func (r *rawConn) readLog() ([]rawRec, int64, error) {
 
 // explain walks the partition with read_committed fetches of the given size
 // (diagnostics for replays: what the broker hands a consumer of that variant).
-func (r *rawConn) explain(maxBytes int32) string {
+func (r *rawConn) explain(maxBytes, partBytes int32) string {
 	s := ""
 	for off, n := int64(0), 0; n < 100; n++ {
-		p, err := r.fetch(off, maxBytes, 1)
+		p, err := r.fetch(off, maxBytes, partBytes, 1)
 		if err != nil {
 			return s + "  " + err.Error() + "\n"
 		}
@@ -134,7 +134,7 @@ func (r *rawConn) explain(maxBytes int32) string {
 		if err != nil {
 			return s + "  " + err.Error() + "\n"
 		}
-		s += fmt.Sprintf("  read_committed fetch offset=%d max_bytes=%d -> hwm=%d lso=%d aborted=[", off, maxBytes, p.HighWatermark, p.LastStableOffset)
+		s += fmt.Sprintf("  read_committed fetch offset=%d max_bytes=%d partition_max_bytes=%d -> hwm=%d lso=%d aborted=[", off, maxBytes, partBytes, p.HighWatermark, p.LastStableOffset)
 		for _, a := range p.AbortedTransactions {
 			s += fmt.Sprintf(" pid%d@%d", a.ProducerID, a.FirstOffset)
 		}
